@@ -1,0 +1,27 @@
+//! Deterministic step counters for external verification harnesses.
+//! Compiled only with `--cfg garnish_verif`; adds no behaviour.
+use std::cell::Cell;
+
+thread_local! {
+    static PARSE_WALK: Cell<u64> = Cell::new(0);
+    static BUILD_POPS: Cell<u64> = Cell::new(0);
+}
+
+/// Reset both counters of the current thread.
+pub fn reset() {
+    PARSE_WALK.with(|c| c.set(0));
+    BUILD_POPS.with(|c| c.set(0));
+}
+
+/// (iterations of the parser's parent-chain walk, nodes popped from the builder's work stack) since the last reset.
+pub fn counters() -> (u64, u64) {
+    (PARSE_WALK.with(|c| c.get()), BUILD_POPS.with(|c| c.get()))
+}
+
+pub(crate) fn count_parse_walk() {
+    PARSE_WALK.with(|c| c.set(c.get() + 1));
+}
+
+pub(crate) fn count_build_pop() {
+    BUILD_POPS.with(|c| c.set(c.get() + 1));
+}
